@@ -394,8 +394,10 @@ fn decode_to_sink<Sink, A>(
         let max_len = decoder
             .max_utf8_buffer_length_without_replacement(input.len())
             .unwrap_or(8192);
+        // Always leave room for one scalar value: with a smaller buffer the decoder
+        // answers `OutputFull` without making progress.
         unsafe {
-            out.push_uninitialized(max_len.min(8192) as u32);
+            out.push_uninitialized(max_len.clamp(4, 8192) as u32);
         }
         let (result, bytes_read, bytes_written) =
             decoder.decode_to_utf8_without_replacement(&input, &mut out, last);
